@@ -811,7 +811,17 @@ int main(int argc, char **argv) {
     return 0;
   }
 
-  if (input_paths.len > 1 && opt_o && (opt_c || opt_S | opt_E))
+  // Only the inputs that get an output of their own count here, not
+  // objects, libraries and linker options.
+  int nsrc = 0;
+  for (int i = 0; i < input_paths.len; i++) {
+    char *p = input_paths.data[i];
+    if (strncmp(p, "-l", 2) && strncmp(p, "-Wl,", 4) && !endswith(p, ".o") &&
+        !endswith(p, ".a") && !endswith(p, ".so"))
+      nsrc++;
+  }
+
+  if (nsrc > 1 && opt_o && (opt_c || opt_S | opt_E))
     error("cannot specify '-o' with '-c,' '-S' or '-E' with multiple files");
 
   StringArray ld_args = {};
